@@ -2,7 +2,7 @@
    Only statements; proofs are in Data/ArithProofs.v and Data/DecimalProofs.v. *)
 From PL Require Import Data.Arith Data.ArithProofs Data.DecimalProofs Generated.Numbers_gen.
 From Coq Require Import String.
-Open Scope Z_scope.
+Local Open Scope Z_scope.
 
 (* the natives add / substract / multiply / divide / < / > AS WRITTEN IN THE SOURCE
    (Generated/Numbers_gen.v) compute the specification on every pair of 64-bit integers *)
